@@ -8,6 +8,7 @@ func TestSiteOf(t *testing.T) {
 		"panic: runtime error | github.com/formancehq/ledger/internal/controller/ledger.(*DefaultController).importLog.func1 @ /repo/internal/controller/ledger/controller_default.go:298 <- z": "internal/controller/ledger/controller_default.go:(*DefaultController).importLog.func1",
 		"panic: i; stack: github.com/formancehq/ledger/internal/storage/common.UnmarshalCursor[...]({0xff86b8a37ad, 0x141daaa?}, {0x1}) @ /repo/internal/storage/common/cursor.go:61 +0x33a":    "internal/storage/common/cursor.go:UnmarshalCursor",
 		"panic: invalid log type; stack: github.com/formancehq/ledger/internal.LogTypeFromString(...) @ /repo/internal/log.go:85 <- a":                                                          "internal/log.go:LogTypeFromString",
+		"panic: unknown type; stack: github.com/formancehq/ledger/internal.(*SavedMetadata).UnmarshalJSON(0xc000, {0x1, 0x2, 0x3}) @ /repo/internal/log.go:304 +0x1 <- b":                       "internal/log.go:(*SavedMetadata).UnmarshalJSON",
 		"nothing": "unknown-site",
 	} {
 		if got := siteOf(in); got != want {
